@@ -351,6 +351,20 @@ func TestC20LndWatcher(t *testing.T) {
 		c.Mine(1010)
 		l.pump()
 		l.settle()
+		// on a busy machine the watcher's goroutines may not have subscribed yet when the blocks were
+		// announced: keep announcing what is due (each event goes out once per subscription) until the
+		// report is there or a generous deadline passes
+		for dl := time.Now().Add(8 * time.Second); time.Now().Before(dl); {
+			mu.Lock()
+			n := len(calls)
+			mu.Unlock()
+			if n > 0 {
+				break
+			}
+			time.Sleep(3 * time.Millisecond)
+			l.pump()
+			l.settle()
+		}
 		desc := fmt.Sprintf("mode=%s start=%d ops=%v", mode, start, ops)
 		mu.Lock()
 		got := append([]cb{}, calls...)
